@@ -792,7 +792,7 @@ func init() {
 				items = append(items, Item{Name: fmt.Sprintf("union/probe%d", p), MaxDevs: du, Run: c07UnionScenario(tier, p, baseline)})
 			}
 			// state kept outside the pools, results still held by the caller, overlapping executions
-			items = append(items, callsItems(tier, "C07", "clean-despite-violation", "depends-on-history", "nested-call-differs", "earlier-result-changed", "panic")...)
+			items = append(items, callsItems(tier, "C07", "clean-despite-violation", "depends-on-history", "nested-call-differs", "earlier-result-changed", "callers-value-modified", "panic")...)
 			return items
 		},
 		Extra: func(tier string) map[string]any {
